@@ -253,6 +253,9 @@ def run(ch, config, res):
     srv.cap_variation = True
     with ch.scope("srvcfg"):
         srv.digest_final_in_ok = ch.srv.flag("digest_final_in_ok", 1, 2)
+        # in half of the runs every status reply (the greeting's OK included) takes any RFC 5804 shape: response codes,
+        # no text, literal texts whose lines look like status replies
+        srv.status_variation = ch.srv.flag("status_shapes", 1, 2)
     srv.scripts[b"x"] = b"keep;\r\n"
     hooks = Hooks(world)
     hooks.install()
